@@ -97,7 +97,7 @@ def w_hist(hexes, pool, programs, src):
                 part["counters"]["ctx.encodes"] = max(part["counters"]["ctx.encodes"], enc)
                 w = {"history": " ".join(prog)}
                 if live != 0:
-                    part["viol"].append(("idnkit/context-leak/live=%d" % live, w, {"creates": creates, "destroys": destroys}))
+                    part["viol"].append(("idnkit/context-leak", w, {"live": live, "creates": creates, "destroys": destroys}))
                 if bad >= 1000000:
                     part["viol"].append(("idnkit/encode-with-undefined-actions", w, {"count": bad // 1000000}))
                 if bad % 1000000:
@@ -170,6 +170,17 @@ def main(tier, seed):
         sel = addrs if allow == mdl.default_allow else addrs[::3]
         for i in range(0, len(sel), 1500):
             jobs.append((w_records, (exes, sel[i:i + 1500], allow)))
+    # the domain corpora of C07, C09 and C10 (table rows in case forms, reserved names, U-/A-label pairs of every script incl. joiners in
+    # valid context, mapped spellings, invalid U-labels) behind a fixed local part
+    from .. import tldgen as TG
+    rg = random.Random(seed * 31 + 5)
+    q = tier == "quick"
+    dsel = [u for u, a in TG.idn_domains(tier, rg, mdl)[:: (4 if q else 1)]] + [a for u, a in TG.idn_domains(tier, rg, mdl)[:: (16 if q else 4)]]
+    dsel += TG.tld_domains(tier, rg, mdl)[:: (8 if q else 2)] + TG.special_domains(tier, rg)[:: (20 if q else 4)]
+    dsel += [u for u, a in TG.invalid_idn_pairs(tier, rg)] + [a for u, a in TG.invalid_idn_pairs(tier, rg)]
+    dv = sorted({b"user@" + d for d in dsel if d and b"\x00" not in d})
+    for i in range(0, len(dv), 1500):
+        jobs.append((w_records, (exes, dv[i:i + 1500], mdl.default_allow)))
     codes = [0] + [mdl.class_number(c) for c in _model.CLASSES] + [-v for v in sorted(mdl.eeav.values()) if v > 0]
     for rc in codes:
         jobs.append((w_policy, (pexes, rc)))
@@ -220,7 +231,7 @@ def main(tier, seed):
                         "IDN conversions')", "legal histories: eav_free is followed by eav_init before reuse"]
     return rep.finish(c["addresses.compared"] * 3 + c["policy.rows"] * 2048 + sum(c["histories.%s" % b] for b in BACKENDS),
                       rep.distinct_count,
-                      "C01 address corpus (4 modes x tld off/on, two allow_tld masks) and the complete C08 callback enumeration through "
+                      "C01 address corpus (4 modes x tld off/on, two allow_tld masks), the C07 / C09 / C10 domain corpora and the complete C08 callback enumeration through "
                       "the three back-end builds, records compared; C13 histories (exhaustive to length %d + random to 200) through the "
                       "three builds with the idnkit context ledger; distinct = addresses + policy tuples + histories" % (4 if tier == "quick" else 5),
                       {"backends": BACKENDS, "builds": cx.builds_info()})
